@@ -212,3 +212,274 @@ def cases_for(prop, tier, seed):
 
 # minimised past disagreements and the witnesses of the recorded findings; always run first
 CORPUS = {}
+
+
+# ------------------------------------------------------------------------------------ enums (C15, C07)
+
+ENUM_ALPHABET = [None, "0", "1", "2", "3", "-1", "default", "catch_all"]
+
+
+def enum_case(width, values, use_try, base="uint", syntax="json", profile="enum", reuse=None, cfgs=None):
+    variants = []
+    for i, v in enumerate(values):
+        var = {"name": "V%d" % i, "value": v}
+        if cfgs and cfgs[i]:
+            var["cfg"] = cfgs[i]
+        variants.append(var)
+    fields = [{"name": "f", "base": base, "start": 0, "end": width,
+               "conversion": {"enum": {"name": "En", "variants": variants}, "try": use_try}}]
+    size = max(width, 1)
+    if reuse is not None:
+        rw, rtry = reuse
+        fields.append({"name": "g", "base": base, "start": width, "end": width + rw,
+                       "conversion": {"type": "En", "try": rtry}})
+        size = width + rw
+    reg = {"kind": "register", "name": "R", "address": "0", "size_bits": size, "byte_order": "LE", "fields": fields}
+    return case({"config": {"register_address_type": "u8"}, "objects": [reg]}, syntax, profile)
+
+
+def prof_enum(g, tier):
+    import itertools
+    out = []
+    thorough = tier == "thorough"
+    max_len = 4 if thorough else 3
+    widths = [1, 2, 3] if thorough else [1, 2]
+    for n in range(0, max_len + 1):
+        for values in itertools.product(ENUM_ALPHABET, repeat=n):
+            for w in widths:
+                for t in (False, True):
+                    if not thorough and n == 3 and g.chance(0.6):
+                        continue
+                    out.append(enum_case(w, list(values), t, syntax="json" if g.chance(0.8) else "dsl"))
+    # random wider enums, gaps / out of range / full coverage
+    for _ in range(3000 if thorough else 400):
+        w = g.r.randint(1, 10 if not thorough else 12)
+        full = g.chance(0.25) and w <= 6
+        if full:
+            vals = [str(v) for v in range(1 << w)]
+            if g.chance(0.5):
+                g.r.shuffle(vals)
+            if g.chance(0.3):
+                vals[g.r.randrange(len(vals))] = None
+            if g.chance(0.2):
+                vals.pop(g.r.randrange(len(vals)))
+        else:
+            n = g.r.randint(1, 7)
+            vals = []
+            for _k in range(n):
+                c = g.r.random()
+                vals.append(None if c < 0.35 else "default" if c < 0.45 else "catch_all" if c < 0.55 else
+                            str(g.r.randint(0, (1 << w) - 1)) if c < 0.93 else str((1 << w) + g.r.randint(0, 2)) if c < 0.97 else str(-g.r.randint(1, 4)))
+        reuse = None
+        if g.chance(0.3):
+            reuse = (g.r.randint(1, min(w + 1, 8)), g.chance(0.3))
+        out.append(enum_case(w, vals, g.chance(0.4), syntax=pick_syntax(g), reuse=reuse))
+    return out
+
+
+# ------------------------------------------------------------------------------------ reset values (C08)
+
+def reset_register(g, name, addr, size, bo, bito, form, value):
+    r = {"kind": "register", "name": name, "address": str(addr), "size_bits": size, "fields": []}
+    if bo:
+        r["byte_order"] = bo
+    if bito:
+        r["bit_order"] = bito
+    if form == "int":
+        r["reset"] = {"int": str(value)}
+    elif form == "array":
+        r["reset"] = {"array": value}
+    return r
+
+
+def good_reset(g, size, bo, bito, form):
+    """A reset value with no bit at or above `size` (in the documented numbering)."""
+    n = (size + 7) // 8
+    bits = [g.r.random() < 0.5 for _ in range(size)]
+    arr = [0] * n
+    for k, b in enumerate(bits):
+        if b:
+            byte = k // 8 if bo != "BE" else n - 1 - k // 8
+            bit = k % 8 if bito != "MSB0" else 7 - k % 8
+            arr[byte] |= 1 << bit
+    if form == "array":
+        return arr
+    le = arr if bo != "BE" else arr[::-1]
+    return int.from_bytes(bytes(le), "little")
+
+
+def flip_high_bit(g, size, bo, bito, form, value, k):
+    """Set bit k >= size (documented numbering) in a good value."""
+    n = (size + 7) // 8
+    if form == "array":
+        a = list(value)
+        byte = k // 8 if bo != "BE" else n - 1 - k // 8
+        bit = k % 8 if bito != "MSB0" else 7 - k % 8
+        a[byte] |= 1 << bit
+        return a
+    # integer: little-endian byte k//8 (any k up to 127), bit per bit order
+    bit = k % 8 if bito != "MSB0" else 7 - k % 8
+    return value | (1 << (8 * (k // 8) + bit))
+
+
+def prof_reset(g, tier):
+    out = []
+    thorough = tier == "thorough"
+    sizes = list(range(1, 129)) if thorough else [1, 2, 7, 8, 9, 12, 15, 16, 17, 24, 31, 32, 33, 63, 64, 65, 100, 127, 128]
+    # accepted: many registers per device
+    for rep in range(6 if thorough else 2):
+        for bo in ("LE", "BE"):
+            for bito in ("LSB0", "MSB0"):
+                for form in ("int", "array", None):
+                    regs, addr = [], 0
+                    g.reset_names()
+                    for size in sizes:
+                        if form == "int" and size > 64 and g.chance(0.5):
+                            continue  # manifest integers are u64; only the DSL carries wider ones
+                        v = good_reset(g, size, bo, bito, form) if form else None
+                        regs.append(reset_register(g, "R%d" % size, addr, size, bo, bito, form, v))
+                        addr += 1
+                    # some refs with / without their own reset
+                    for i in range(4):
+                        tgt = g.pick([r for r in regs if r["kind"] == "register"])
+                        ov = {"kind": "register", "address": str(addr)}
+                        addr += 1
+                        if g.chance(0.7):
+                            f2 = g.pick(["int", "array"])
+                            if f2 == "int" and tgt["size_bits"] > 64:
+                                f2 = "array"
+                            v = good_reset(g, tgt["size_bits"], bo, bito, f2)
+                            ov["reset"] = {"int": str(v)} if f2 == "int" else {"array": v}
+                        regs.append({"kind": "ref", "name": "Alias%d" % i, "target": tgt["name"], "override": ov})
+                    cfg = {"register_address_type": "u16"}
+                    big_int = any("reset" in r and "int" in r.get("reset", {}) and int(r["reset"]["int"]) >= 2 ** 64 for r in regs)
+                    big_int = big_int or any(r["kind"] == "ref" and "int" in r["override"].get("reset", {}) and int(r["override"]["reset"]["int"]) >= 2 ** 64 for r in regs)
+                    syn = "dsl" if big_int else pick_syntax(g)
+                    out.append(case({"config": cfg, "objects": regs}, syn, "reset_ok"))
+    # rejected / boundary: one register per device
+    for size in sizes:
+        n = (size + 7) // 8
+        for bo in ("LE", "BE"):
+            for bito in ("LSB0", "MSB0"):
+                for form in ("int", "array"):
+                    highs = list(range(size, 8 * n)) if form == "array" else list(range(size, 8 * n)) + [8 * n, 8 * n + 7, 127]
+                    highs = [k for k in highs if k <= 127 and k >= size]
+                    if not thorough and len(highs) > 3:
+                        highs = g.r.sample(highs, 3)
+                    for k in highs:
+                        good = good_reset(g, size, bo, bito, form)
+                        bad = flip_high_bit(g, size, bo, bito, form, good, k)
+                        syn = "dsl" if (form == "int" and bad >= 2 ** 64) else pick_syntax(g, (6, 3, 1, 1))
+                        out.append(case({"config": {"register_address_type": "u8"},
+                                         "objects": [reset_register(g, "R", 1, size, bo, bito, form, bad)]}, syn, "reset_bad_bit"))
+                    if form == "array" and (thorough or g.chance(0.5)):
+                        good = good_reset(g, size, bo, bito, form)
+                        wrong = good + [0] if g.chance(0.5) else good[:-1]
+                        out.append(case({"config": {"register_address_type": "u8"},
+                                         "objects": [reset_register(g, "R", 1, size, bo, bito, form, wrong)]}, pick_syntax(g), "reset_bad_len"))
+    # ref whose override is bad while the target is fine
+    for _ in range(100 if thorough else 20):
+        size = g.pick(sizes)
+        bo, bito = g.pick(["LE", "BE"]), g.pick(["LSB0", "MSB0"])
+        n = (size + 7) // 8
+        if 8 * n == size:
+            continue
+        tgt = reset_register(g, "T", 1, size, bo, bito, "array", good_reset(g, size, bo, bito, "array"))
+        bad = flip_high_bit(g, size, bo, bito, "array", good_reset(g, size, bo, bito, "array"), g.r.randint(size, 8 * n - 1))
+        ref = {"kind": "ref", "name": "Al", "target": "T", "override": {"kind": "register", "address": "2", "reset": {"array": bad}}}
+        out.append(case({"config": {"register_address_type": "u8"}, "objects": [tgt, ref]}, pick_syntax(g), "reset_bad_ref"))
+    return out
+
+
+# ------------------------------------------------------------------------------------ cfg (C18)
+
+def prof_cfg(g, n):
+    out = []
+    for i in range(n):
+        g.reset_names()
+        atoms = ["ca", "cb", "cc", "cd", 'feature="x"', 'feature="y"']
+
+        def cfg():
+            return g.pick(atoms) if g.chance(0.45) else None
+
+        def leaf(depth):
+            name = g.fresh(["Reg", "Cmd", "Buf", "Stat", "Ctl"])
+            k = g.pick(["register", "register", "command", "buffer"])
+            if k == "register":
+                o = {"kind": "register", "name": name, "address": "0", "size_bits": 8, "fields": []}
+                nf = g.r.randint(0, 2)
+                pos = 0
+                for j in range(nf):
+                    f = {"name": "f%d" % j, "base": "uint", "start": pos, "end": pos + 2}
+                    pos += 2
+                    c = cfg()
+                    if c:
+                        f["cfg"] = c
+                    if g.chance(0.6):
+                        f["conversion"] = {"enum": {"name": g.fresh(["En", "Kind", "Sel"]), "variants": [
+                            {"name": "A", "value": None}, {"name": "B", "value": "default"}]}, "try": False}
+                    o["fields"].append(f)
+            elif k == "command":
+                o = {"kind": "command", "name": name, "address": "0", "size_bits_in": 8,
+                     "fields_in": [{"name": "v", "base": "uint", "start": 0, "end": 8}]}
+            else:
+                o = {"kind": "buffer", "name": name, "address": "0"}
+            c = cfg()
+            if c:
+                o["cfg"] = c
+            return o
+
+        def block(depth, maxdepth):
+            objs = []
+            for _ in range(g.r.randint(1, 3)):
+                if depth < maxdepth and g.chance(0.55):
+                    b = {"kind": "block", "name": g.fresh(["Blk", "Grp", "Sub", "Bank"]), "objects": block(depth + 1, maxdepth)}
+                    c = cfg()
+                    if c:
+                        b["cfg"] = c
+                    objs.append(b)
+                    # objects following the end of a nested block, at this (shallower) depth
+                    if g.chance(0.7):
+                        objs.append(leaf(depth))
+                else:
+                    objs.append(leaf(depth))
+            return objs
+
+        objs = block(0, g.r.randint(0, 4))
+        # all allow overlap so that only cfg matters
+        def relax(os):
+            for o in os:
+                if o["kind"] in ("register", "command"):
+                    o["allow_address_overlap"] = True
+                if o["kind"] == "block":
+                    relax(o["objects"])
+        relax(objs)
+        # buffers cannot allow overlap: give them distinct addresses
+        cnt = [0]
+        def fix_buffers(os):
+            for o in os:
+                if o["kind"] == "buffer":
+                    cnt[0] += 1
+                    o["address"] = str(cnt[0])
+                if o["kind"] == "block":
+                    fix_buffers(o["objects"])
+        fix_buffers(objs)
+        cfgd = {"register_address_type": "u8", "command_address_type": "u8", "buffer_address_type": "u8"}
+        out.append(case({"config": cfgd, "objects": objs}, pick_syntax(g), "cfg"))
+    return out
+
+
+_cases_for_base = cases_for
+
+
+def cases_for(prop, tier, seed):
+    thorough = tier == "thorough"
+    g = Gen(seed, stream=int(prop[1:]))
+    k = 10 if thorough else 1
+    if prop in ("C15", "C07"):
+        return CORPUS.get(prop, []) + prof_enum(g, tier)
+    if prop == "C08":
+        return CORPUS.get(prop, []) + prof_reset(g, tier)
+    if prop == "C18":
+        return CORPUS.get(prop, []) + prof_cfg(g, 800 * k)
+    return _cases_for_base(prop, tier, seed)
